@@ -114,7 +114,7 @@ theorem parse_eq_srcBlocks {W : Type} (Wd : World W) (mode : Mode) (le : Str) (l
 /-- `p` is the resolution, from directory `wd`, of the target of a `temp` block of the source text -/
 def TempTarget (cfg : Cfg) (fs : FS) (wd : Path) (lines : List Str) (p : Path) : Prop :=
   ∃ bs d e target body, srcBlocks cfg.mode lines = some bs ∧ Block.dir d e ∈ bs ∧ d.ty = .temp ∧
-    d.args = target :: body ∧ fs.resolve cfg wd target = some p
+    d.args = target :: body ∧ isTxtppPath target = false ∧ fs.resolve cfg wd target = some p
 
 theorem walk_dirs (fs fs' : FS) (h : fs'.dirs = fs.dirs) : ∀ (comps : List Str) (cur : Path), fs'.walk cur comps = fs.walk cur comps := by
   intro comps
@@ -131,24 +131,28 @@ theorem resolve_dirs (fs fs' : FS) (cfg : Cfg) (wd : Path) (arg : Str) (h : fs'.
 
 /-- scope invariant: directories unchanged, and the touch set grew only by allowed paths -/
 def Scope (fs0 : FS) (A : Path → Prop) (fs : FS) : Prop :=
-  fs.dirs = fs0.dirs ∧ ∀ p ∈ fs.touched, p ∈ fs0.touched ∨ A p
+  fs.dirs = fs0.dirs ∧ (∀ p ∈ fs.touched, p ∈ fs0.touched ∨ A p) ∧ (∀ q, ¬ A q → fs.file? q = fs0.file? q)
 
 theorem Scope.mono (fs0 : FS) (A B : Path → Prop) (fs : FS) (hAB : ∀ p, A p → B p) (h : Scope fs0 A fs) : Scope fs0 B fs :=
-  ⟨h.1, fun p hp => (h.2 p hp).imp id (hAB p)⟩
+  ⟨h.1, fun p hp => (h.2.1 p hp).imp id (hAB p), fun q hq => h.2.2 q (fun ha => hq (hAB q ha))⟩
 
 theorem Scope.write (fs0 : FS) (A : Path → Prop) (fs : FS) (p : Path) (b : ByteArray) (h : Scope fs0 A fs) (hp : A p) :
     Scope fs0 A (fs.write p b) := by
-  refine ⟨h.1, fun q hq => ?_⟩
-  rcases (touched_write fs p q b).1 hq with rfl | hq
-  · exact Or.inr hp
-  · exact h.2 q hq
+  refine ⟨h.1, fun q hq => ?_, fun q hq => ?_⟩
+  · rcases (touched_write fs p q b).1 hq with rfl | hq
+    · exact Or.inr hp
+    · exact h.2.1 q hq
+  · have hne : q ≠ p := fun e => hq (e ▸ hp)
+    rw [file?_write_other fs p q b hne]; exact h.2.2 q hq
 
 theorem Scope.remove (fs0 : FS) (A : Path → Prop) (fs : FS) (p : Path) (h : Scope fs0 A fs) (hp : A p) :
     Scope fs0 A (fs.remove p) := by
-  refine ⟨h.1, fun q hq => ?_⟩
-  rcases (touched_remove fs p q).1 hq with rfl | hq
-  · exact Or.inr hp
-  · exact h.2 q hq
+  refine ⟨h.1, fun q hq => ?_, fun q hq => ?_⟩
+  · rcases (touched_remove fs p q).1 hq with rfl | hq
+    · exact Or.inr hp
+    · exact h.2.1 q hq
+  · have hne : q ≠ p := fun e => hq (e ▸ hp)
+    rw [file?_remove_other fs p q hne]; exact h.2.2 q hq
 
 theorem runActs_dirs (cfg : Cfg) (wd : Path) (src : Str) (fs : FS) (acts : List (Str × Str)) (out : ByteArray) (ok : Bool) :
     (runActs cfg wd src fs acts out ok).2.2.dirs = fs.dirs := by
@@ -166,8 +170,10 @@ variable {W : Type}
     directive being executed -/
 structure OpsPreserveAt (Wd : World W) (mode : Mode) (I : W → Prop) (d : Directive) : Prop where
   run : mode ≠ .clean → ∀ w c, I w → I (Wd.run w c).2
-  writeTemp : mode ≠ .clean → d.ty = .temp → ∀ w t body c w', d.args = t :: body → I w → Wd.writeTemp w t c = some w' → I w'
-  removeTemp : mode = .clean → d.ty = .temp → ∀ w t body w', d.args = t :: body → I w → Wd.removeTemp w t = some w' → I w'
+  writeTemp : mode ≠ .clean → d.ty = .temp → ∀ w t body c w', d.args = t :: body → isTxtppPath t = false → I w →
+    Wd.writeTemp w t c = some w' → I w'
+  removeTemp : mode = .clean → d.ty = .temp → ∀ w t body w', d.args = t :: body → isTxtppPath t = false → I w →
+    Wd.removeTemp w t = some w' → I w'
 
 theorem execTemp_inv_at (Wd : World W) (mode : Mode) (I : W → Prop) (d : Directive) (hty : d.ty = .temp)
     (hp : OpsPreserveAt Wd mode I d) (le : Str) (w w' : W)
@@ -178,9 +184,11 @@ theorem execTemp_inv_at (Wd : World W) (mode : Mode) (I : W → Prop) (d : Direc
   · rename_i target body hargs
     split at h
     · simp at h
-    · by_cases hm : mode = .clean
-      · simp [hm] at h; exact hp.removeTemp hm hty _ _ _ _ hargs hI h
-      · simp [hm] at h; exact hp.writeTemp hm hty _ _ _ _ _ hargs hI h
+    · rename_i hnt
+      have hnt' : isTxtppPath target = false := by simpa using hnt
+      by_cases hm : mode = .clean
+      · simp [hm] at h; exact hp.removeTemp hm hty _ _ _ _ hargs hnt' hI h
+      · simp [hm] at h; exact hp.writeTemp hm hty _ _ _ _ _ hargs hnt' hI h
 
 theorem execDirective_inv_at (Wd : World W) (mode : Mode) (I : W → Prop) (le : Str)
     (s s' : PpState W) (d : Directive) (hp : OpsPreserveAt Wd mode I d) (o : Option Str) (hI : I s.w)
@@ -241,7 +249,7 @@ theorem execDirective_inv_at (Wd : World W) (mode : Mode) (I : W → Prop) (le :
 
 /-- the operations of `fileWorld` keep the scope invariant when the temp target is an allowed path -/
 theorem fileWorld_scope (cfg : Cfg) (wd : Path) (src : Str) (mode : Mode) (fs0 : FS) (A : Path → Prop) (d : Directive)
-    (hA : ∀ t body p, d.ty = .temp → d.args = t :: body → fs0.resolve cfg wd t = some p → A p) :
+    (hA : ∀ t body p, d.ty = .temp → d.args = t :: body → isTxtppPath t = false → fs0.resolve cfg wd t = some p → A p) :
     OpsPreserveAt (fileWorld cfg wd src) mode (Scope fs0 A) d where
   run := by
     intro _ fs c h
@@ -251,14 +259,16 @@ theorem fileWorld_scope (cfg : Cfg) (wd : Path) (src : Str) (mode : Mode) (fs0 :
     · rename_i acts _
       have hf := runActs_files cfg wd src fs acts ByteArray.empty true
       have hd := runActs_dirs cfg wd src fs acts ByteArray.empty true
-      split <;> exact ⟨hd.trans h.1, fun p hp => h.2 p (hf.2 ▸ hp)⟩
+      have hfile : ∀ q, (runActs cfg wd src fs acts ByteArray.empty true).2.2.file? q = fs.file? q := by
+        intro q; simp only [FS.file?, hf.1]
+      split <;> exact ⟨hd.trans h.1, fun p hp => h.2.1 p (hf.2 ▸ hp), fun q hq => (hfile q).trans (h.2.2 q hq)⟩
   writeTemp := by
-    intro _ hty fs t body c fs' hargs h hw
+    intro _ hty fs t body c fs' hargs hnt h hw
     simp only [fileWorld] at hw
     split at hw
     · simp at hw
     · rename_i p hres
-      have hp : A p := hA t body p hty hargs (by rw [← resolve_dirs fs0 fs cfg wd t h.1]; exact hres)
+      have hp : A p := hA t body p hty hargs hnt (by rw [← resolve_dirs fs0 fs cfg wd t h.1]; exact hres)
       split at hw
       · simp at hw
       · have h1 : Scope fs0 A (if fs.isFile p then fs else fs.write p ByteArray.empty) := by
@@ -270,12 +280,12 @@ theorem fileWorld_scope (cfg : Cfg) (wd : Path) (src : Str) (mode : Mode) (fs0 :
         · cases hw; exact h1
         · cases hw; exact Scope.write fs0 A _ p _ h1 hp
   removeTemp := by
-    intro _ hty fs t body fs' hargs h hr
+    intro _ hty fs t body fs' hargs hnt h hr
     simp only [fileWorld] at hr
     split at hr
     · simp at hr; subst hr; exact h
     · rename_i p hres
-      have hp : A p := hA t body p hty hargs (by rw [← resolve_dirs fs0 fs cfg wd t h.1]; exact hres)
+      have hp : A p := hA t body p hty hargs hnt (by rw [← resolve_dirs fs0 fs cfg wd t h.1]; exact hres)
       split at hr
       · simp at hr; subst hr; exact Scope.remove fs0 A fs p h hp
       · split at hr
@@ -304,8 +314,8 @@ theorem ppPass_scope (cfg : Cfg) (wd : Path) (src : Str) (le : Str) (first : Boo
           rw [parse_eq_srcBlocks] at hpar
           refine execDirective_inv_at (fileWorld cfg wd src) cfg.mode (Scope fs0 A) le s s' d ?_ o hj he
           apply fileWorld_scope
-          intro t body p hty hargs hres
-          exact hA p ⟨bs, d, e, t, body, hpar, hmem, hty, hargs, hres⟩
+          intro t body p hty hargs hnt hres
+          exact hA p ⟨bs, d, e, t, body, hpar, hmem, hty, hargs, hnt, hres⟩
         · intro s l hj
           simp only [txtppSem]
           split <;> exact hj
@@ -351,7 +361,7 @@ def PassScope (cfg : Cfg) (fs : FS) (src : Path) (content : ByteArray) (p : Path
 def PassAllowed (cfg : Cfg) (fs : FS) (src : Path) (p : Path) : Prop :=
   ∃ content, fs.file? src = some content ∧ PassScope cfg fs src content p
 
-theorem Scope.refl (fs : FS) (A : Path → Prop) : Scope fs A fs := ⟨rfl, fun _ h => Or.inl h⟩
+theorem Scope.refl (fs : FS) (A : Path → Prop) : Scope fs A fs := ⟨rfl, fun _ h => Or.inl h, fun _ _ => rfl⟩
 
 /-- one pass, any mode, any outcome: directories unchanged, and the touch set grew only by the
     pass scope of the source as it was read -/
@@ -380,8 +390,8 @@ theorem runPass_scope (cfg : Cfg) (fs : FS) (src : Path) (first : Bool) :
 
 theorem TempTarget_dirs (cfg : Cfg) (fs fs' : FS) (wd : Path) (lines : List Str) (p : Path) (h : fs'.dirs = fs.dirs)
     (ht : TempTarget cfg fs' wd lines p) : TempTarget cfg fs wd lines p := by
-  obtain ⟨bs, d, e, t, body, h1, h2, h3, h4, h5⟩ := ht
-  exact ⟨bs, d, e, t, body, h1, h2, h3, h4, by rw [← resolve_dirs fs fs' cfg wd t h]; exact h5⟩
+  obtain ⟨bs, d, e, t, body, h1, h2, h3, h4, h5, h6⟩ := ht
+  exact ⟨bs, d, e, t, body, h1, h2, h3, h4, h5, by rw [← resolve_dirs fs fs' cfg wd t h]; exact h6⟩
 
 /-- the whole-run invariant: relative to the initial file system `fs0`, everything touched is in
     the pass scope of a source whose bytes are the initial ones, or of a source the run itself wrote -/
@@ -396,7 +406,7 @@ theorem runPass_runScope (cfg : Cfg) (fs0 fs : FS) (src : Path) (first : Bool) (
   have hu2 := runPass_untouched cfg fs src first
   have hs := runPass_scope cfg fs src first
   refine ⟨Untouched.trans fs0 fs _ hu hu2, hs.1.trans hd, fun p hp => ?_⟩
-  rcases hs.2 p hp with hold | ⟨content, hfile, hsc⟩
+  rcases hs.2.1 p hp with hold | ⟨content, hfile, hsc⟩
   · rcases ht p hold with h0 | ⟨s, c, hps, hsrc⟩
     · exact Or.inl h0
     · exact Or.inr ⟨s, c, hps, hsrc.imp id (fun hm => hu2.2 s hm)⟩
